@@ -31,6 +31,40 @@ def decide(ck, arts):
     if other:
         raise vp.Infra("%d generated well-formed specifications were rejected (C07's business), e.g. %r: %s" %
                        (len(other), other[0]["text"], other[0]["err"][:200]))
+    # "each such production is one of the grammar's own productions": a directive never adds to the grammar. The derived grammar
+    # of every specification is compared with the one of the same declarations WITHOUT the directives (number of productions and
+    # of non-terminals; the synthesised names may be numbered differently when handles are read first)
+    def shape(a):
+        ps = set(json.dumps(p, sort_keys=True) for p in a["prods"])
+        return len(ps), len(set(p["h"] for p in a["prods"]))
+    def canon(t):
+        """a right-hand side with every alternation flattened and its alternatives as a set"""
+        if t["k"] == "alt":
+            alts, todo = [], [t]
+            while todo:
+                x = todo.pop()
+                todo.extend(x["c"]) if x["k"] == "alt" else alts.append(canon(x))
+            return ("alt", tuple(sorted(set(alts))))
+        return (t["k"], t["n"], tuple(canon(c) for c in t["c"]))
+
+    def alts(rhs):
+        c = canon(rhs[0]) if rhs else ("eps",)
+        return set(c[1]) if c[0] == "alt" else {c}
+
+    def own(a):
+        """every rule handle is written with alternatives of the rule it names (in any order)"""
+        rules = {x["name"]: alts(x["rhs"]) for x in a["decls"] if x["k"] == "rule"}
+        return all(alts(h["rhs"]) <= rules.get(h["name"], set()) for x in a["decls"] if x["k"] == "dir" for h in x["hs"] if h["k"] == "r")
+    plain = [a for a in arts.values() if a["ok"] and not any(x["k"] == "dir" for x in a["decls"])]
+    if plain:
+        want = shape(plain[0])
+        for a in arts.values():
+            if a["ok"] and own(a) and sorted(json.dumps(x, sort_keys=True) for x in a["decls"] if x["k"] != "dir") == \
+                    sorted(json.dumps(x, sort_keys=True) for x in plain[0]["decls"]) and shape(a) != want:
+                ck.violation("spec %r: the directives changed the grammar: %d productions / %d non-terminals without them, %d / %d with them "
+                             "(a rule handle contributed a production that is not one of the grammar's own)" %
+                             ((a["text"].replace("\n", " "),) + want + shape(a)),
+                             {"property": "C12", "kind": "grammar-changed", "text": a["text"], "decls": a["decls"]})
     for d in r.printed("LEVELS"):
         a = arts[d["id"]]
         dirs = [x for x in a["decls"] if x["k"] == "dir"]
@@ -47,7 +81,8 @@ def run(ck):
     if ck.args.replay:
         rp = json.load(open(ck.args.replay))
         ck.stage_specs()
-        vp.write_ndjson(os.path.join(ck.work, "tla", "gen_specs.ndjson"), [{"fam": "R", "decls": rp["decls"]}])
+        vp.write_ndjson(os.path.join(ck.work, "tla", "gen_specs.ndjson"), [{"fam": "R", "decls": rp["decls"]},
+                                                                                {"fam": "R0", "decls": [x for x in rp["decls"] if x["k"] != "dir"]}])
         arts = export(ck)
         decide(ck, arts)
         ck.sample({"text": rp["text"], "violations": len(ck.violations)})
@@ -71,5 +106,5 @@ def run(ck):
         ck.sample({"text": a["text"], "precs": a["precs"]})
     ck.assumptions += ["rule-handle productions are compared by language (strings up to length 2 over the derived grammar) and by count, not by synthesised names",
                        "two handles for the same head in one level are compared as a union"]
-    return ck.finish({"exhaustive": True, "specs": len(arts), "max_levels": consts["MaxLevels"], "directive_pool": 9,
+    return ck.finish({"exhaustive": True, "specs": len(arts), "max_levels": consts["MaxLevels"], "directive_pool": 10,
                       "placements": ["before", "after", "interleaved"]})
